@@ -130,7 +130,7 @@ def funcWf (f : Func) (vals : List (List Rat)) : Bool :=
 
 def runComp {K : Type} [OfNat K 0] [OfNat K 1] (A : Alg K) (D : Deriv K) (out : K → Json)
     (kind : String) (f : Func) (argvals : Nat → Nat → K) (byName : Bool) (dir : String)
-    (coloring : Option Coloring) : Option Json := do
+    (single : Bool) (coloring : Option Coloring) : Option Json := do
   let implicit := kind == "ifc" || kind == "jic"
   -- the vectors as the framework holds them, then the binding of the code
   let uin : Nat → Nat → K := argvals
@@ -159,14 +159,16 @@ def runComp {K : Type} [OfNat K 0] [OfNat K 1] (A : Alg K) (D : Deriv K) (out : 
     derivBlock J (f.retShape ur.1) (f.argShape p) ur.2 qj.2
   let Jfun : Option (Nat → Nat → K) :=
     match kind, dir, coloring with
-    | "efc", "fwd", none => some (efcFwd f ad)
+    | "efc", "fwd", none => some (if single then efcFwdSingle f ad else efcFwd f ad)
     | "efc", "rev", none => some (efcRev f ad)
     | "efc", "fwd", some C => some (efcFwdColored f ad C)
     | "efc", "rev", some C => some (efcRevColored f ad C)
     | "jec", _, none => some derivs
     | "jec", "fwd", some C => some (efcFwdColored f ad C)
     | "jec", "rev", some C => some (efcRevColored f ad C)
-    | "ifc", "fwd", none => some (ifcFwd f ad)
+    | "ifc", "fwd", none =>
+      some (if single then fun row c => efcFwdSingle f ad row (f.jac2func.getD c f.isize)
+            else ifcFwd f ad)
     | "ifc", "rev", none => some (ifcRev byName f ad)
     | "ifc", "fwd", some C => some (ifcFwdColored f ad C)
     | "ifc", "rev", some C => some (ifcRevColored byName f ad C)
@@ -201,6 +203,7 @@ def handle (j : Json) : Option Json := do
     let vals ← (← fieldList? j "vals").mapM fun l => (getList? l) >>= fun l => l.mapM getRat?
     let byName ← fieldBool? j "byName"
     let dir ← fieldStr? j "dir"
+    let single ← fieldBool? j "single"
     let coloring ← optField? j "coloring" parseColoring
     let f : Func := { args := args, rets := rets }
     if !funcWf f vals then
@@ -208,10 +211,11 @@ def handle (j : Json) : Option Json := do
     let r :=
       if rets.all fun o => isRationalExpr o.2 then
         runComp ratAlg ratDeriv jRat kind f
-          (fun p i => (vals.getD p []).getD i 0) byName dir coloring
+          (fun p i => (vals.getD p []).getD i 0) byName dir (single && rets.length == 1) coloring
       else
         runComp floatAlg floatDeriv jFloat kind f
-          (fun p i => ratToFloat ((vals.getD p []).getD i 0)) byName dir coloring
+          (fun p i => ratToFloat ((vals.getD p []).getD i 0)) byName dir
+          (single && rets.length == 1) coloring
     match r with
     | some a => return a
     | none => return jObj [("ok", jBool false), ("err", jStr "unsupported")]
